@@ -93,7 +93,8 @@ PROPS = {
         "level": "other",
         "decided": "no user callback can run inside a broken-invariant window of any table operation without a live scope guard (R-WINDOW, all callback sites of all operations); "
                    "accounting repairs do not depend on drop glue (R-DROPGLUE); table and hasher of a map are never left mismatched by an unwinding Clone (R-LINK); "
-                   "bulk destructor runs are guarded by a table reset (R-BULKDROP-GUARD)",
+                   "bulk destructor runs are guarded by a table reset (R-BULKDROP-GUARD); an element is moved out or destroyed only after its slot was unregistered, so a destructor or closure panic cannot cause a double drop (R-ERASE-BEFORE); "
+                   "counts are balanced on every path including the unwind guards (R-ACCT); a leaked or panicking drain leaves an empty valid table (R-DRAIN-PROTOCOL)",
         "not_decided": "that a guard closure restores exactly the right counts (only necessary conditions); leak-vs-drop accounting of individual elements",
     },
 }
